@@ -804,35 +804,9 @@ func c10BackEdgeBounded(p *Prog, b *Bounds, fn *ssa.Function, fs []Fact) (bool, 
 			continue
 		}
 		G := pc.Common().StaticCallee()
-		ei := errResultIndex(G)
-		nret := 0
-		for _, r := range returnsOf(G) {
-			gg, ok := sentinelGlobal(unspill(r.Results[ei]))
-			if !ok || gg != g {
-				continue
-			}
-			nret++
-			// some []byte parameter of G is bounded at this return
-			bounded := false
-			for _, par := range G.Params {
-				if !isByteSlice(par.Type()) {
-					continue
-				}
-				par := par
-				okp, _ := b.Prove(G, r, func(s *scope, pr *proof) []Cons {
-					l, ok := s.lenLin(par, pr)
-					if !ok {
-						return []Cons{{linConst(1)}}
-					}
-					return []Cons{leC(l, limit)}
-				})
-				if okp {
-					bounded = true
-				}
-			}
-			if !bounded {
-				return false, fmt.Sprintf("%s returns the retry sentinel %s at %s without a provable bound on its input length: a peer can make the buffer grow without limit", p.FuncKey(G), g.Name(), p.InstrPos(r))
-			}
+		nret, fail := c10SentinelReturns(p, b, G, g, limit, 0, map[*ssa.Function]bool{})
+		if fail != "" {
+			return false, fail
 		}
 		if nret == 0 {
 			return false, fmt.Sprintf("%s never returns the sentinel %s the loop retries on", p.FuncKey(G), g.Name())
@@ -840,6 +814,83 @@ func c10BackEdgeBounded(p *Prog, b *Bounds, fn *ssa.Function, fs []Fact) (bool, 
 		return true, fmt.Sprintf("retry only on %s, which %s returns at %d sites, each with len(input) <= %d provable", g.Name(), p.FuncKey(G), nret, limit)
 	}
 	return false, "no bound on the accumulated data is known on the back edge"
+}
+
+// c10SentinelReturns counts the returns of G (and of the module callees whose error G hands through) that yield
+// the retry sentinel g, and requires a provable bound on a []byte parameter at each.
+func c10SentinelReturns(p *Prog, b *Bounds, G *ssa.Function, g *ssa.Global, limit int64, depth int, seen map[*ssa.Function]bool) (int, string) {
+	if seen[G] || depth > 3 {
+		return 0, ""
+	}
+	seen[G] = true
+	ei := errResultIndex(G)
+	if ei < 0 {
+		return 0, ""
+	}
+	nret := 0
+	for _, r := range returnsOf(G) {
+		var leaves []ssa.Value
+		var walk func(v ssa.Value, d int)
+		seenV := map[ssa.Value]bool{}
+		walk = func(v ssa.Value, d int) {
+			v = unspill(v)
+			if seenV[v] || d > 8 {
+				return
+			}
+			seenV[v] = true
+			if phi, ok := v.(*ssa.Phi); ok {
+				for _, e := range phi.Edges {
+					walk(e, d+1)
+				}
+				return
+			}
+			leaves = append(leaves, v)
+		}
+		walk(r.Results[ei], 0)
+		direct := false
+		for _, lf := range leaves {
+			if gg, ok := sentinelGlobal(lf); ok && gg == g {
+				direct = true
+				continue
+			}
+			// the error of an inner module call handed through
+			if ic, _ := callOf(lf); ic != nil {
+				if sc := ic.Common().StaticCallee(); sc != nil && p.inModule(sc) && sc != G {
+					n, fail := c10SentinelReturns(p, b, sc, g, limit, depth+1, seen)
+					if fail != "" {
+						return 0, fail
+					}
+					nret += n
+				}
+			}
+		}
+		if !direct {
+			continue
+		}
+		nret++
+		// some []byte parameter of G is bounded at this return
+		bounded := false
+		for _, par := range G.Params {
+			if !isByteSlice(par.Type()) {
+				continue
+			}
+			par := par
+			okp, _ := b.Prove(G, r, func(s *scope, pr *proof) []Cons {
+				l, ok := s.lenLin(par, pr)
+				if !ok {
+					return []Cons{{linConst(1)}}
+				}
+				return []Cons{leC(l, limit)}
+			})
+			if okp {
+				bounded = true
+			}
+		}
+		if !bounded {
+			return 0, fmt.Sprintf("%s returns the retry sentinel %s at %s without a provable bound on its input length: a peer can make the buffer grow without limit", p.FuncKey(G), g.Name(), p.InstrPos(r))
+		}
+	}
+	return nret, ""
 }
 
 func sentinelGlobal(v ssa.Value) (*ssa.Global, bool) {
